@@ -50,6 +50,37 @@ theorem charge_keeps_deadline_translated (e : T.Env) (m : T.mapping_state) (he :
   · have : (mapOfC (T.mapping_reset_charge e m).mstate).inactTs = (mapResetCharge (mapOfC m)).inactTs := by rw [h3]
     simpa [mapOfC, mapResetCharge] using this
 
+/-- switch_state_mapping AS COMPILED FROM THE C TEXT (table walk, per-state time-out pre-emption, the self-call) follows
+    the property's state machine: for every automaton record carrying the tables `init_automata_mapping` builds, every
+    state of the machine, every integer input and every clock reading `holdsC14Step` holds of what the translated function
+    leaves behind, the recursion ends within two levels and the tables are left alone -/
+theorem step_translated (e : T.Env) (hnow : e.nowS < u64) (a : T.automata) (inp : Int) (hok : AutOk a) (hm : IsMapping a)
+    (hs : a.current_state < 3) :
+    holdsC14Step (timeoutOf X.mappingTimeouts a.current_state) (fsmOfC a) (fsmOfC (T.switch_state_mapping 2 e a inp).autom) inp e.nowS = true ∧
+    (T.switch_state_mapping 2 e a inp).diverged = false ∧ sameTables a (T.switch_state_mapping 2 e a inp).autom := by
+  obtain ⟨h1, h2, h3⟩ := switch_state_mapping_eq e hnow a inp hok hm
+  refine ⟨?_, h2, h3⟩
+  rw [h1]
+  exact C14.step (fsmOfC a) hs inp e.nowS hnow
+
+/-- every input other than Discover / Emit / Reset / time-out / emission-complete leaves the translated function's state
+    where it was (within the time-out) -/
+theorem ignore_translated (e : T.Env) (hnow : e.nowS < u64) (a : T.automata) (inp : Int) (hok : AutOk a) (hm : IsMapping a)
+    (hs : a.current_state < 3) (hi : inp ≠ 0 ∧ inp ≠ 2 ∧ inp ≠ 8 ∧ inp ≠ -1 ∧ inp ≠ -3)
+    (hw : timeoutOf X.mappingTimeouts a.current_state = 0 ∨ diff64 e.nowS a.last_ts ≤ timeoutOf X.mappingTimeouts a.current_state) :
+    (T.switch_state_mapping 2 e a inp).autom.current_state = a.current_state ∧
+    (T.switch_state_mapping 2 e a inp).autom.last_ts = e.nowS := by
+  obtain ⟨h1, _, _⟩ := switch_state_mapping_eq e hnow a inp hok hm
+  have hst := step_translated e hnow a inp hok hm hs
+  have hh := hst.1
+  unfold holdsC14Step at hh
+  have hw' : timeoutOf X.mappingTimeouts a.current_state = 0 ∨ diff64 e.nowS (fsmOfC a).lastTs ≤ timeoutOf X.mappingTimeouts a.current_state := hw
+  simp only [if_pos hw', Bool.and_eq_true, decide_eq_true_eq] at hh
+  refine ⟨?_, hh.1⟩
+  have : (fsmOfC (T.switch_state_mapping 2 e a inp).autom).state = mapSpec (fsmOfC a).state inp := hh.2
+  rw [C14.ignore (fsmOfC a).state inp hi] at this
+  exact this
+
 example : ClockOk { nowMs := 5000, nowS := 5 } := by refine ⟨by decide, by decide⟩
 example : (T.mapping_reset_inactive_timeout { nowMs := 5000, nowS := 5 } { ctc := 3, charge_timeout_ts := 6, inactive_timeout_ts := 0 }).mstate.inactive_timeout_ts = 35 := by decide
 
